@@ -671,4 +671,4 @@ def default_engine_pred(call: ast.Call, m: Module) -> bool:
     while isinstance(recv, ast.Call) and isinstance(recv.func, ast.Attribute):
         recv = recv.func.value
     name = recv.attr if isinstance(recv, ast.Attribute) else recv.id if isinstance(recv, ast.Name) else ""
-    return "duck" in name
+    return "duck" in name and not name.startswith("duckdb") and name not in m.consts  # (duckdb_to_sf_type is a table, `duckdb` the module)
